@@ -9,6 +9,7 @@ executing the same source.
 """
 import ast
 import json
+from concurrent.futures import ThreadPoolExecutor
 
 from vlib import cy, diff
 from vlib.gen import excgen
@@ -140,8 +141,8 @@ def mechanism(f, exp, got):
 def main(ck):
     tree = cy.Tree('C22')
     rng = ck.rng('exc')
-    nfuncs = ck.pick(400, 6000)
-    per_mod = ck.pick(50, 150)
+    nfuncs = ck.pick(400, 2000)
+    per_mod = ck.pick(50, 125)
     mods = {}
     fmap = {}
     feat = {}
@@ -162,6 +163,7 @@ def main(ck):
     irng = ck.rng('inj')
     ncases_feat = {}
     order_only = 0
+    jobs = []
     for n, inf in info.items():
         if not inf['ok']:
             skipped += 1
@@ -174,8 +176,16 @@ def main(ck):
                 cases.append({'f': f['name'], 'a': '(%r,)' % (inj,), 't': '%s/%d' % (tag, len(inj))})
                 for x in f['feat']:
                     ncases_feat[x] = ncases_feat.get(x, 0) + 1
-        res = diff.run_cases(tree, d, n, cases, ref=inf['src'], compare=COMPARE, tagdir='run_' + n, timeout=3600,
-                             nproc=ck.pick(2, 4), spec_extra={'catch_base': True, 'nsample': 2})
+        jobs.append((n, inf, cases))
+
+    def run_module(job):
+        n, inf, cases = job
+        return diff.run_cases(tree, d, n, cases, ref=inf['src'], compare=COMPARE, tagdir='run_' + n, timeout=3600,
+                              nproc=ck.pick(1, 2), spec_extra={'catch_base': True, 'nsample': 2})
+
+    with ThreadPoolExecutor(8) as ex:
+        results = list(ex.map(run_module, jobs))
+    for (n, inf, cases), res in zip(jobs, results):
         total_n += res.n
         total_distinct += res.distinct
         samples.extend(res.samples[:1])
